@@ -723,6 +723,22 @@ def task_has_pending_cancellation(ip, t):
     return Sym(ip.st.get("Task", "pending_cancel", t.t), BOOL)
 
 
+def task_cancel(ip, t, msg=None):
+    """E3: Task.cancel() on a task that is not done: one more cancellation request; the future the task is waiting on
+    is cancelled if it is still pending, otherwise the task is marked to be cancelled at its next step"""
+    st = ip.st
+    if ip.ctx.branch(st.get("Task", "done", t.t), "task-done"):
+        return False
+    st.put("Task", "ncancel", t.t, st.get("Task", "ncancel", t.t) + 1)
+    st.put("Task", "cancelling", t.t, st.get("Task", "cancelling", t.t) + 1)
+    w = st.get("Task", "fut_waiter", t.t)
+    pending = z3.And(w != 0, st.get("Future", "state", w) == PENDING)
+    fs = st.arr("Future", "state")
+    st.put("Future", "state", w, z3.If(pending, z3.IntVal(CANCELLED), z3.Select(fs, w)))
+    st.put("Task", "must_cancel", t.t, z3.If(pending, st.get("Task", "must_cancel", t.t), z3.BoolVal(True)))
+    return True
+
+
 def task_done(ip, t):
     return Sym(ip.st.get("Task", "done", t.t), BOOL)
 
@@ -757,7 +773,7 @@ MODEL_METHODS = {
     },
     "AEvent": {"set": aev_set, "is_set": aev_is_set, "wait": aev_wait},
     "bytearray": {"extend": ba_extend, "find": ba_find, "__len__": ba_len},
-    "Task": {"cancelling": task_cancelling, "done": task_done, "has_pending_cancellation": task_has_pending_cancellation},
+    "Task": {"cancelling": task_cancelling, "done": task_done, "has_pending_cancellation": task_has_pending_cancellation, "cancel": task_cancel},
 }
 
 
@@ -1426,6 +1442,8 @@ def exec_for_std(spec, ip, s, env, f, ordinal):
         start = st.get(cn, "lo", it.t)
         more = lambda k: k < st.get(cn, "hi", it.t)
         elem = lambda k: ip.wrap(z3.Select(st.get(cn, "data", it.t), k), ci.elem)
+    elif is_ref(it) and CLASSES[it.ty.cls].kind == "set":
+        return exec_for_set(spec, ip, s, env, f, ordinal, it)
     else:
         raise Unsupported(f"for-loop over {it!r}")
     ctx.loop_entry = H(st, st.snapshot())
@@ -1475,6 +1493,84 @@ def exec_for_std(spec, ip, s, env, f, ordinal):
         if extra:
             ctx.fail(f"{tag}:frame", "frame", f"loop body writes {sorted(extra)} outside its declared frame")
     ctx.loop_k = k + 1
+    for name, t in spec.inv(ip, env):
+        ctx.oblige(f"{tag}:{name}:preserved", t, "loop")
+    raise PathEnd("loop body done")
+
+
+def exec_for_set(spec, ip, s, env, f, ordinal, it):
+    """`for x in <set>`: the iteration order is arbitrary, so the invariant is phrased over the ghost set of elements
+    *visited so far* (`ip.ctx.loop_visited`: z3 array Elem -> Bool; `ip.ctx.loop_k` counts them).  Entry: nothing
+    visited.  Arbitrary iteration: visited is a subset of the set; either an unvisited element x exists -- the body runs
+    for it and the invariant is re-asserted with x added -- or every element has been visited and the loop is left.
+    The body must not resize the set (CPython raises RuntimeError): mem/card must be outside the loop frame."""
+    ctx, st = ip.ctx, ip.st
+    tag = f"{f.qualname}/loop{ordinal}"
+    ci = CLASSES[it.ty.cls]
+    cn = ci.name
+    if spec.modifies is None or {(cn, "mem"), (cn, "card")} & spec.modifies:
+        raise Unsupported("for-loop over a set that the loop frame allows to be resized")
+    esort = ci.elem.sort()
+    ctx.loop_entry = H(st, st.snapshot())
+    ctx.loop_visited = z3.K(esort, z3.BoolVal(False))
+    ctx.loop_k = z3.IntVal(0)
+    for name, t in spec.inv(ip, env):
+        ctx.oblige(f"{tag}:{name}:entry", t, "loop")
+    names = assigned_names(s.body) | assigned_names([s.target])
+    for nm in sorted(names):
+        if nm in env.vars:
+            if nm in spec.gen_locals:
+                env.vars[nm] = spec.gen_locals[nm](ip, env.vars[nm])
+            else:
+                env.vars[nm] = generalize(ip, env.vars[nm], spec.local_types.get(nm))
+    st.havoc(keys=spec.modifies)
+    spec.after_havoc(ip, env)
+    mem = st.get(cn, "mem", it.t)
+    V = st.fresh("visited", z3.ArraySort(esort, z3.BoolSort()))
+    k = st.fresh("k", z3.IntSort())
+    e = z3.Const(st.uniq("e"), esort)
+    st.assume(k >= 0)
+    st.assume(z3.ForAll([e], z3.Implies(z3.Select(V, e), z3.Select(mem, e)), patterns=[z3.Select(V, e)]))
+    ctx.loop_visited, ctx.loop_k = V, k
+    for name, t in spec.inv(ip, env):
+        st.assume(t)
+    if ctx.decide(2, f"for-set:{s.lineno}") == 1:
+        # every element has been visited
+        e2 = z3.Const(st.uniq("e"), esort)
+        st.assume(z3.ForAll([e2], z3.Implies(z3.Select(mem, e2), z3.Select(V, e2)), patterns=[z3.Select(mem, e2)]))
+        ip.exec_block(s.orelse, env, f)
+        return
+    x = st.fresh("elem", esort)
+    st.assume(z3.And(z3.Select(mem, x), z3.Not(z3.Select(V, x))))
+    ip.assign(s.target, ip.wrap(x, ci.elem), env, f)
+    if st.writes is None:
+        st.writes = []
+    wset = set()
+    st.writes.append(wset)
+
+    def drop():
+        if wset in (st.writes or []):
+            st.writes.remove(wset)
+            if not st.writes:
+                st.writes = None
+
+    try:
+        try:
+            ip.exec_block(s.body, env, f)
+        except I._Continue:
+            pass
+    except I._Break:
+        drop()
+        return
+    except (PyExc, I._Return, PathEnd):
+        drop()
+        raise
+    drop()
+    if spec.modifies is not None:
+        extra = {w for w in wset if w not in spec.modifies and w[0] != "$"}
+        if extra:
+            ctx.fail(f"{tag}:frame", "frame", f"loop body writes {sorted(extra)} outside its declared frame")
+    ctx.loop_visited, ctx.loop_k = z3.Store(V, x, True), k + 1
     for name, t in spec.inv(ip, env):
         ctx.oblige(f"{tag}:{name}:preserved", t, "loop")
     raise PathEnd("loop body done")
